@@ -32,6 +32,7 @@ def run(rep, tier):
     delegation(rep, F)
     bounding_rect(rep, F)
     extremes(rep, F)
+    bbox_tables(rep, F)
     lines_rule(rep, F)
     map_rule(rep, F)
     error_discipline(rep, F)
@@ -361,6 +362,122 @@ def bounding_rect(rep, F):
 
 
 # ------------------------------------------------------------------ extremes
+def bbox_tables(rep, F, rule="R19.8", only=None):
+    """bounding_rect as min / max of the traversed coordinates, decided on witnesses: bounding_rect_merge(a, b) on pairs of grid rectangles, and
+    BoundingRect of Point, Line, Triangle, Rect, LineString / MultiPoint (0..3 coordinates), Polygon (triangle ring), MultiLineString and
+    MultiPolygon (two members) on grid coordinates: None exactly for no coordinates, otherwise Rect(min x, min y, max x, max y)."""
+    import itertools
+    import time
+    from ..numeval import NumEval
+    from ..evalterm import NoModel, Enum
+    rep.rule(rule, "bounding boxes on witnesses: bounding_rect_merge(a, b) is the component-wise min / max of the two boxes; bounding_rect of Point, Line, Triangle, Rect, LineString, MultiPoint (0..3 coordinates), Polygon, MultiLineString, MultiPolygon (two members) is None exactly when there is no coordinate and otherwise (min x, min y)-(max x, max y) of the coordinates")
+    BR = "geo::algorithm::bounding_rect::BoundingRect"
+    grid = [{"x": x, "y": y} for x in range(3) for y in range(3)]
+    sub = [grid[0], grid[5], grid[7], grid[2]]       # (0,0) (1,2) (2,1) (0,2)
+    n_ok = 0
+
+    def vec(items):
+        return ("call", "vec!", (("array", tuple(items)),))
+
+    def C(i):
+        return ("opaque", "c%d" % i)
+
+    def rect_of(v):
+        """decode an evaluated Option<Rect> / Rect into ((minx, miny), (maxx, maxy)) | None"""
+        if isinstance(v, Enum):
+            if v.variant == "None":
+                return None
+            v = v.payload[0]
+        if isinstance(v, dict) and "min" in v:
+            return ((v["min"]["x"], v["min"]["y"]), (v["max"]["x"], v["max"]["y"]))
+        raise NoModel("not a Rect: %r" % (v,))
+
+    def want_of(cs):
+        if not cs:
+            return None
+        return ((min(c["x"] for c in cs), min(c["y"] for c in cs)), (max(c["x"] for c in cs), max(c["y"] for c in cs)))
+
+    def table(key, fn, args, cases, env_of, coords_of, mem=None):
+        nonlocal n_ok
+        if only and key.split("[")[0] not in only:
+            return
+        t0 = time.time()
+        try:
+            ex = Symex(F, concrete_iters=True, loop_bound=10, inline_crates=("geo", "geo_types"), max_depth=14, max_paths=20000)
+            paths = [p for p in ex.run(fn, args=args) if p.kind != "cut"]
+        except Unanalysable as e:
+            rep.bad(rule, key + ":unanalysable", str(e), where=fn.loc())
+            return
+        k = 0
+        for case in cases:
+            ev = NumEval(F, env_of(case))
+            try:
+                hit = ev.select_path(paths)
+                got = sorted(set(("panic",) if h.kind != "ret" else (rect_of(ev.ev(h.ret)),) for h in hit), key=str)
+            except (NoModel, TypeError, KeyError, IndexError) as e:
+                rep.bad(rule, key + ":non-abstractable", "%s cannot be evaluated on %s: %s" % (key, case, e), where=fn.loc())
+                return
+            want = want_of(coords_of(case))
+            k += 1
+            if got != [(want,)]:
+                rep.bad(rule, key, "%s on %s evaluates to %s, the coordinates span %s" % (key, [(c["x"], c["y"]) for c in coords_of(case)], [g[0] for g in got], want), where=fn.loc())
+                return
+        n_ok += 1
+        rep.ok(rule, "%s[%d witnesses, %d rows, %.1fs]" % (key, k, len(paths), time.time() - t0))
+
+    def env(case):
+        return {C(i): c for i, c in enumerate(case)}
+    # the merge helper
+    try:
+        fn = F.one(r"^geo::algorithm::bounding_rect::bounding_rect_merge$", crates=("geo",))
+        RECT = GT + "rect::Rect"
+        rects = [(a, b) for a in grid for b in grid if a["x"] <= b["x"] and a["y"] <= b["y"]][::2]
+        table("bounding_rect_merge", fn, [("adt", RECT, "Rect", (C(0), C(1))), ("adt", RECT, "Rect", (C(2), C(3)))],
+              [r1 + r2 for r1 in rects for r2 in rects], env, lambda case: list(case))
+    except KeyError as e:
+        rep.bad(rule, "bounding_rect_merge:anchor", str(e))
+
+    def impl(ty):
+        return F.impl_method(BR, r"^%s%s<T>$" % (GT, ty), None, "bounding_rect", crates=("geo",))
+    LS = GT + "line_string::LineString"
+    shapes = [
+        ("Point", "point::Point", ("adt", GT + "point::Point", "Point", (C(0),)), 1, grid),
+        ("Line", "line::Line", ("adt", GT + "line::Line", "Line", (C(0), C(1))), 2, grid),
+        ("Triangle", "triangle::Triangle", ("adt", GT + "triangle::Triangle", "Triangle", (C(0), C(1), C(2))), 3, grid[::2] + [grid[1]]),
+    ]
+    for n in range(0, 4):
+        shapes.append(("LineString/%d" % n, "line_string::LineString", ("adt", LS, "LineString", (vec([C(i) for i in range(n)]),)), n, grid if n < 3 else grid[::2] + [grid[1]]))
+    for n in range(0, 3):
+        shapes.append(("MultiPoint/%d" % n, "multi_point::MultiPoint", ("adt", GT + "multi_point::MultiPoint", "MultiPoint",
+                                                                       (vec([("adt", GT + "point::Point", "Point", (C(i),)) for i in range(n)]),)), n, grid))
+    ring = ("adt", LS, "LineString", (vec([C(0), C(1), C(2), C(0)]),))
+    shapes.append(("Polygon", "polygon::Polygon", ("adt", GT + "polygon::Polygon", "Polygon", (ring, vec([]))), 3, grid[::2] + [grid[1]]))
+    shapes.append(("Polygon/empty", "polygon::Polygon", ("adt", GT + "polygon::Polygon", "Polygon", (("adt", LS, "LineString", (vec([]),)), vec([]))), 0, grid))
+    shapes.append(("MultiLineString", "multi_line_string::MultiLineString", ("adt", GT + "multi_line_string::MultiLineString", "MultiLineString",
+                   (vec([("adt", LS, "LineString", (vec([C(0), C(1)]),)), ("adt", LS, "LineString", (vec([C(2), C(3)]),))]),)), 4, sub))
+    shapes.append(("MultiLineString/0", "multi_line_string::MultiLineString", ("adt", GT + "multi_line_string::MultiLineString", "MultiLineString", (vec([]),)), 0, grid))
+    r1 = ("adt", LS, "LineString", (vec([C(0), C(1)]),))       # two coordinates per exterior keep the table small (3 rows per coordinate and axis)
+    r2 = ("adt", LS, "LineString", (vec([C(2), C(3)]),))
+    shapes.append(("MultiPolygon", "multi_polygon::MultiPolygon", ("adt", GT + "multi_polygon::MultiPolygon", "MultiPolygon",
+                   (vec([("adt", GT + "polygon::Polygon", "Polygon", (r1, vec([]))), ("adt", GT + "polygon::Polygon", "Polygon", (r2, vec([])))]),)), 4, sub))
+    for key, ty, arg, n, dom in shapes:
+        try:
+            fn = impl(ty)
+        except KeyError as e:
+            rep.bad(rule, "%s:anchor" % key, str(e))
+            continue
+        table("BoundingRect:" + key, fn, [("&", arg)], itertools.product(dom, repeat=n), env, lambda case: list(case))
+    # Rect: its own box (min <= max: the invariant of the type)
+    try:
+        fn = impl("rect::Rect")
+        rects = [(a, b) for a in grid for b in grid if a["x"] <= b["x"] and a["y"] <= b["y"]]
+        table("BoundingRect:Rect", fn, [("&", ("adt", GT + "rect::Rect", "Rect", (C(0), C(1))))], rects, env, lambda case: list(case))
+    except KeyError as e:
+        rep.bad(rule, "Rect:anchor", str(e))
+    if not only:
+        rep.floor(rule, "bounding-box tables", n_ok, 17)
+
+
 def extremes(rep, F):
     """R19.7: the blanket Extremes impl on traversals of 0..3 coordinates (the traversal is supplied as a concrete iterator, so `for` loops and
     folds unroll alike); the path table is walked with integer coordinate assignments: None iff the traversal is empty, otherwise every record
